@@ -1,0 +1,15 @@
+//go:build verif
+
+package proto
+
+// Verification hook (build tag "verif" only): lets a test harness lower the
+// row cap consulted by checkRows, so that allocations the decoders make by
+// design from in-cap counts stay small under an address-space limit.
+// Inactive until VerifSetCaps is called.
+
+var verifRows int
+
+// VerifSetCaps sets the maximum row count accepted by checkRows; 0 disables.
+func VerifSetCaps(rows int) { verifRows = rows }
+
+func verifRowCap() int { return verifRows }
